@@ -347,8 +347,13 @@ def run_rule(db, chk, uname, rid_paths, rid_levels, deep=True):
         for base in [[0], [n - 1], [0, n - 1]] + ([[1]] if n > 3 else []):
             tasks.append((gname, adj, base))
             # one masked node (not a base level); quick tier: on the 4-node path only
-            if n > 3 and (thorough or gname == "path-4"):
+            # (thorough: every 4-node graph, and the centre column of the 2x3 raster)
+            if n == 4 and (thorough or gname == "path-4"):
                 for mk in range(n):
+                    if mk not in base:
+                        tasks.append((gname, adj, base, [mk]))
+            elif thorough and gname == "2x3-rook":
+                for mk in (1, 4):
                     if mk not in base:
                         tasks.append((gname, adj, base, [mk]))
     n_sc = 0
